@@ -482,6 +482,16 @@ def gen_reqs(rng, c, windows):
             n = rng.weighted([(rng.randint(0, 600), 2), (rng.randint(0, min(5 * gs + 3, 700) * SECTOR + 100), 4),
                               (-1 if size - off < 400_000 else 1000, 1), (min(size, 300_000), 1)])
             reqs.append(["bytes", off, n])
+    # history on one object: the extent read front to back in equal chunks (a position or table remembered from the
+    # previous request must not leak into the next one), for extents small enough to scan
+    if cap <= 3000 and rng.chance(0.5):
+        step = rng.pick([gs, 2 * gs, 16, 7, gt * gs])
+        step = max(1, min(step, 700))
+        kind = rng.pick(["sectors", "dsectors"]) if c["kind"] != "flat" else "sectors"
+        for s in range(0, cap, step):
+            reqs.append([kind, s, min(step, cap - s)])
+            if len(reqs) > 60:
+                break
     return reqs
 
 
